@@ -1,23 +1,41 @@
 (** C16 - S3 commits install the root inventory last and clean up after failures.
-    Property theorems only; each closed by [exact] of a lemma from Proofs/. *)
-From Rocfl Require Import Base.Bytes Generated.Consts Model.S3 Model.KnownS3 Proofs.S3Facts Proofs.S3CommitFacts.
+    Property theorems only; each closed by [exact] of a lemma from Proofs/.
+
+    State of /repo: commits 4953bf6 (upload_all_files_with_rollback uploads the inventory of the
+    uploaded directory and then its sidecar last) and 9053efb (write_new_version reads what it is
+    about to replace and puts it back when the install fails) repaired the two classes that used
+    to be excluded here (new-object-walk-order, root-inventory-rollback).  No theorem carries a
+    classifier hypothesis any more; Model/KnownS3.v is gone.
+
+    Failure model: [write_new_version (Some k)] = the k-th MUTATING request of the commit (PUT,
+    multipart create / part / complete, DELETE - the requests the property quantifies over) fails
+    once and has no effect.  A second failure in the same commit - in particular of a request that
+    puts something back during the rollback - is outside this single-failure model (the code
+    logs it and goes on, s3.rs:629-657).  Reads (GET, listings) are not failed.
+    The staged version lives in the staging directory of the file system and is not touched by
+    the S3 store (commit_inner purges it only after the store call succeeded, repo.rs:1123-1130); that it
+    is kept is observed by the check, not modelled here. *)
+From Rocfl Require Import Base.Bytes Generated.Consts Model.S3 Proofs.S3Facts Proofs.S3CommitFacts.
+From Coq Require Import Permutation.
 Open Scope N_scope.
 
-(** fault-free commit of a new version: the mutating requests are exactly - everything below
-    <root>/vN/ in walk order, then the root inventory.json, then the root sidecar, then (only
-    when the spec version changes) the declaration swap, which stores nothing but the new
-    declaration *)
+(** fault-free commit of a new version from a ready bucket ([nv_ready]: nothing below <root>/vN/,
+    the root inventory and its sidecar exist): it succeeds, and its requests are exactly -
+    everything below <root>/vN/ (the version's own inventory and sidecar last), then the GETs of
+    what will be replaced, then the root inventory.json, then the root sidecar, then (only when
+    the spec version changes) the declaration swap, which stores nothing but the new declaration *)
 Theorem C16_root_inventory_last : forall cprefix i bk,
-  nv_wf cprefix i -> clear_under cprefix (vdst_of i) bk ->
+  nv_wf cprefix i -> nv_ready cprefix i bk ->
   let out := write_new_version None cprefix i (init_st bk) in
-  let up := upload_reqs cprefix (vdst_of i) (nv_files i) in
-  let inv_key := join cprefix (join (nv_root i) K_INVENTORY_FILE) in
-  let sc_key := join cprefix (join (nv_root i) (uf_rel (nv_sidecar i))) in
-  exists tail,
-    st_log (snd out) = up ++ put_reqs inv_key (uf_len (nv_inv i)) ++ put_reqs sc_key (uf_len (nv_sidecar i)) ++ tail /\
+  let up := upload_reqs cprefix (vdst_of i) (upload_order (nv_files i)) in
+  exists gets tail,
+    fst out = Ok tt /\
+    st_log (snd out) = up ++ gets ++ put_reqs (inv_key cprefix i) (uf_len (nv_inv i))
+                          ++ put_reqs (sc_key cprefix i) (uf_len (nv_sidecar i)) ++ tail /\
     Forall (fun r => starts_with (request_prefix cprefix (vdst_of i)) (req_key r) = true) up /\
+    Forall (fun r => is_get r = true) gets /\
     Forall (swap_req_ok cprefix (nv_root i) (nv_upgrade i)) tail /\
-    (nv_upgrade i = None -> fst out = Ok tt /\ tail = []).
+    (nv_upgrade i = None -> tail = [] /\ gets = [RGet (inv_key cprefix i); RGet (sc_key cprefix i)]).
 Proof. exact root_inventory_last_version. Qed.
 Print Assumptions C16_root_inventory_last.
 
@@ -29,45 +47,63 @@ Theorem C16_root_inventory_key_outside_version : forall cprefix root vstr name,
 Proof. exact inv_key_not_under. Qed.
 Print Assumptions C16_root_inventory_key_outside_version.
 
-(** new objects are uploaded in directory-walk order; outside the known class (the walk
-    happens to list the root inventory after the version directory and before its sidecar)
-    the same order holds *)
-Theorem C16_root_inventory_last_new_object : forall cprefix root vstr sidecar files bk,
+(** the upload order is a rearrangement of the directory walk: nothing is lost or invented *)
+Theorem C16_upload_order_complete : forall files, Permutation (upload_order files) files.
+Proof. exact upload_order_perm. Qed.
+Print Assumptions C16_upload_order_complete.
+
+(** new objects, for EVERY directory walk (no excluded class any more): the commit succeeds and its
+    requests are those of the files that are neither the root inventory nor a root sidecar (in
+    walk order), then the root inventory.json, then its sidecar *)
+Theorem C16_root_inventory_last_new_object : forall cprefix root files bk,
   clear_under cprefix root bk ->
-  c16_new_object_walk_order vstr sidecar (map uf_rel files) = false ->
   let out := write_new_object None cprefix root files (init_st bk) in
-  exists fb inv fa,
-    files = fb ++ inv :: fa /\ uf_rel inv = K_INVENTORY_FILE /\
-    st_log (snd out) = upload_reqs cprefix root fb ++ put_reqs (join cprefix (join root K_INVENTORY_FILE)) (uf_len inv)
-                        ++ upload_reqs cprefix root fa /\
-    Forall (fun f => starts_with (vstr ++ [slash]) (uf_rel f) = false) fa /\
-    Forall (fun f => uf_rel f <> sidecar) fb.
+  exists others invs sidecars,
+    fst out = Ok tt /\
+    st_log (snd out) = upload_reqs cprefix root others ++ upload_reqs cprefix root invs ++ upload_reqs cprefix root sidecars /\
+    Permutation (others ++ invs ++ sidecars) files /\
+    Forall (fun f => uf_rel f <> K_INVENTORY_FILE /\ starts_with K_INVENTORY_SIDECAR_PREFIX (uf_rel f) = false) others /\
+    Forall (fun f => uf_rel f = K_INVENTORY_FILE) invs /\
+    Forall (fun f => starts_with K_INVENTORY_SIDECAR_PREFIX (uf_rel f) = true /\ uf_rel f <> K_INVENTORY_FILE) sidecars.
 Proof. exact root_inventory_last_object. Qed.
 Print Assumptions C16_root_inventory_last_new_object.
 
-(** inside that class the pinned code stores the root inventory first: known finding *)
-Theorem C16_new_object_walk_order_refuted :
-  c16_new_object_walk_order (b "v01") (b "inventory.json.sha256") (map uf_rel wit_walk) = true /\
-  st_log (snd (write_new_object None [] (b "o1") wit_walk (init_st []))) =
-    [RPut (b "o1/inventory.json"); RPut (b "o1/v01/inventory.json"); RPut (b "o1/v01/content/a.txt");
-     RPut (b "o1/v01/inventory.json.sha256"); RPut (b "o1/inventory.json.sha256"); RPut (b "o1/0=ocfl_object_1.0")].
-Proof. exact new_object_walk_witness. Qed.
-Print Assumptions C16_new_object_walk_order_refuted.
+(** ... and every file below <vstr>/ is among the first group, whatever the version directory
+    is called (zero-padded or not), as long as its name does not begin with "inventory.json." *)
+Theorem C16_version_files_before_root_inventory : forall vstr rel,
+  starts_with K_INVENTORY_SIDECAR_PREFIX vstr = false ->
+  starts_with (vstr ++ [slash]) rel = true -> upload_rank rel = 0.
+Proof. exact version_files_rank_0. Qed.
+Print Assumptions C16_version_files_before_root_inventory.
 
-(** a single failing request, outside the known class (= up to and including the PUT of the
-    root inventory; PUT, multipart create / part / complete alike): the commit reports an error,
-    every key of the bucket - earlier versions, the previous root inventory and sidecar, other
-    objects - reads as before, and nothing is left below <root>/vN/ *)
+(** a single failing request of a version commit, at EVERY position k - upload (PUT, multipart
+    create / part / complete), root inventory, root sidecar, new declaration of an upgrade, DELETE
+    of an old declaration: if request k was reached the commit reports an error, every key of the
+    bucket - earlier versions, the previous root inventory and sidecar, the declaration, other
+    objects - reads as before the commit, and nothing is left below <root>/vN/; if the commit has
+    no request k it succeeds *)
 Theorem C16_fault_cleanup : forall cprefix i bk k,
-  nv_wf cprefix i -> clear_under cprefix (vdst_of i) bk -> c16_root_inventory_rollback i k = false ->
+  nv_wf cprefix i -> nv_ready cprefix i bk ->
   let out := write_new_version (Some k) cprefix i (init_st bk) in
-  fst out = Err /\
-  (forall x, bk_get x (st_b (snd out)) = bk_get x bk) /\
-  (forall x, starts_with (request_prefix cprefix (vdst_of i)) x = true -> bk_get x (st_b (snd out)) = None).
+  (k < st_n (snd out) ->
+     fst out = Err /\
+     (forall x, bk_get x (st_b (snd out)) = bk_get x bk) /\
+     (forall x, starts_with (request_prefix cprefix (vdst_of i)) x = true -> bk_get x (st_b (snd out)) = None)) /\
+  (st_n (snd out) <= k -> fst out = Ok tt).
 Proof. exact fault_cleanup_version. Qed.
 Print Assumptions C16_fault_cleanup.
 
-(** the same for a new object, for every request of the upload (no excluded class) *)
+(** after a failed commit the bucket is ready again and the retried commit succeeds *)
+Theorem C16_retry_succeeds : forall cprefix i bk k,
+  nv_wf cprefix i -> nv_ready cprefix i bk ->
+  let out := write_new_version (Some k) cprefix i (init_st bk) in
+  fst out <> Ok tt ->
+  nv_ready cprefix i (st_b (snd out)) /\
+  fst (write_new_version None cprefix i (init_st (st_b (snd out)))) = Ok tt.
+Proof. exact retry_succeeds. Qed.
+Print Assumptions C16_retry_succeeds.
+
+(** the same for a new object, for every request of the upload *)
 Theorem C16_fault_cleanup_new_object : forall cprefix root files bk k,
   pfx_ok cprefix = true -> relb root = true -> Forall (fun f => relb (uf_rel f) = true) files ->
   clear_under cprefix root bk -> k < upload_cost files ->
@@ -76,50 +112,81 @@ Theorem C16_fault_cleanup_new_object : forall cprefix root files bk k,
 Proof. exact fault_cleanup_object. Qed.
 Print Assumptions C16_fault_cleanup_new_object.
 
-(** a commit refused by the emptiness test sends no mutating request *)
+(** a commit refused by the emptiness test sends no request *)
 Theorem C16_refused_commit_sends_nothing : forall fa cprefix i s,
   listing_empty (list_all (bk_keys (st_b s)) cprefix (vdst_of i) true) <> Ok true ->
   fst (write_new_version fa cprefix i s) <> Ok tt /\ snd (write_new_version fa cprefix i s) = s.
 Proof. exact write_new_version_refused. Qed.
 Print Assumptions C16_refused_commit_sends_nothing.
 
-(** inside the class the pinned code violates the property: a failed root sidecar PUT makes the
-    rollback delete the root inventory.json that already replaced the previous one (known finding) *)
-Theorem C16_fault_cleanup_refuted :
-  let out := write_new_version (Some 4) (b "pre") wit_input (init_st wit_bucket) in
-  c16_root_inventory_rollback wit_input 4 = true /\
+(* ---- historical notes: what the code did BEFORE the repairs, about the separate definitions
+   [..._before_fix] of Model/S3.v (nothing else depends on them) *)
+
+(** before 9053efb a failed root sidecar PUT made the rollback delete the root inventory.json *)
+Theorem C16_root_inventory_rollback_before_fix :
+  let out := write_new_version_before_fix (Some 4) (b "pre") wit_input (init_st wit_bucket) in
   fst out = Err /\
   bk_get (b "pre/o1/inventory.json") wit_bucket = Some (b "inv1") /\
   bk_get (b "pre/o1/inventory.json") (st_b (snd out)) = None /\
-  bk_get (b "pre/o1/inventory.json.sha512") (st_b (snd out)) = Some (b "sc1") /\
-  st_log (snd out) =
-    [RPut (b "pre/o1/v2/inventory.json"); RPut (b "pre/o1/v2/content/b.txt"); RPut (b "pre/o1/v2/inventory.json.sha512");
-     RPut (b "pre/o1/inventory.json"); RPut (b "pre/o1/inventory.json.sha512");
-     RDelete (b "pre/o1/v2/inventory.json"); RDelete (b "pre/o1/v2/content/b.txt");
-     RDelete (b "pre/o1/v2/inventory.json.sha512"); RDelete (b "pre/o1/inventory.json")].
-Proof. exact fault_cleanup_refuted_witness. Qed.
-Print Assumptions C16_fault_cleanup_refuted.
+  bk_get (b "pre/o1/inventory.json.sha512") (st_b (snd out)) = Some (b "sc1").
+Proof. exact root_inventory_rollback_before_fix. Qed.
+Print Assumptions C16_root_inventory_rollback_before_fix.
 
-(** same class, upgrade: a failed PUT of the new declaration leaves v2 installed under the old one *)
-Theorem C16_upgrade_swap_refuted :
-  let out := write_new_version (Some 4) (b "pre") wit_upgrade (init_st wit_bucket) in
-  c16_root_inventory_rollback wit_upgrade 4 = true /\ fst out = Err /\
+(** before 9053efb a failed PUT of the new declaration left v2 installed under the old one *)
+Theorem C16_upgrade_swap_before_fix :
+  let out := write_new_version_before_fix (Some 4) (b "pre") wit_upgrade (init_st wit_bucket) in
+  fst out = Err /\
   bk_get (b "pre/o1/inventory.json") (st_b (snd out)) = Some (b "inv2") /\
   bk_get (b "pre/o1/0=ocfl_object_1.0") (st_b (snd out)) = Some (b "decl") /\
   bk_get (b "pre/o1/0=ocfl_object_1.1") (st_b (snd out)) = None.
-Proof. exact upgrade_fault_witness. Qed.
-Print Assumptions C16_upgrade_swap_refuted.
+Proof. exact upgrade_swap_before_fix. Qed.
+Print Assumptions C16_upgrade_swap_before_fix.
 
-(** Non-vacuity: the hypotheses of C16_fault_cleanup are met at the boundary of the class
-    (request 3 = the PUT of the root inventory), and the fault-free run succeeds *)
+(** before 4953bf6 the zero-padded walk stored the root inventory first *)
+Theorem C16_new_object_walk_order_before_fix :
+  st_log (snd (write_new_object_before_fix None [] (b "o1") wit_walk (init_st []))) =
+    [RPut (b "o1/inventory.json"); RPut (b "o1/v01/inventory.json"); RPut (b "o1/v01/content/a.txt");
+     RPut (b "o1/v01/inventory.json.sha256"); RPut (b "o1/inventory.json.sha256"); RPut (b "o1/0=ocfl_object_1.0")].
+Proof. exact new_object_walk_order_before_fix. Qed.
+Print Assumptions C16_new_object_walk_order_before_fix.
+
+(* ---- non-vacuity and samples on the inputs of the two repaired classes *)
+
+(** the hypotheses of the theorems are met by a plain commit and by an upgrade *)
 Example C16_nonvacuous :
-  c16_root_inventory_rollback wit_input 3 = false /\
-  nv_wf (b "pre") wit_input /\ clear_under (b "pre") (vdst_of wit_input) wit_bucket /\
-  fst (write_new_version (Some 3) (b "pre") wit_input (init_st wit_bucket)) = Err /\
-  fst (write_new_version None (b "pre") wit_input (init_st wit_bucket)) = Ok tt /\
-  bk_get (b "pre/o1/inventory.json") (st_b (snd (write_new_version None (b "pre") wit_input (init_st wit_bucket)))) = Some (b "inv2").
-Proof.
-  destruct fault_cleanup_boundary_witness as (A & B & C).
-  split; [exact A|]. split; [exact B|]. split; [exact C|].
-  split; [vm_compute; reflexivity|]. split; vm_compute; reflexivity.
-Qed.
+  (nv_wf (b "pre") wit_input /\ nv_ready (b "pre") wit_input wit_bucket) /\
+  (nv_wf (b "pre") wit_upgrade /\ nv_ready (b "pre") wit_upgrade wit_bucket).
+Proof. split; [exact wit_input_wf|exact wit_upgrade_wf]. Qed.
+Print Assumptions C16_nonvacuous.
+
+(** the failed root sidecar PUT: the previous root inventory pair is put back, v2 is deleted *)
+Example C16_sidecar_fault_sample :
+  let out := write_new_version (Some 4) (b "pre") wit_input (init_st wit_bucket) in
+  fst out = Err /\ bk_equiv (st_b (snd out)) wit_bucket = true /\
+  st_log (snd out) =
+    [RPut (b "pre/o1/v2/content/b.txt"); RPut (b "pre/o1/v2/inventory.json"); RPut (b "pre/o1/v2/inventory.json.sha512");
+     RGet (b "pre/o1/inventory.json"); RGet (b "pre/o1/inventory.json.sha512");
+     RPut (b "pre/o1/inventory.json"); RPut (b "pre/o1/inventory.json.sha512");
+     RPut (b "pre/o1/inventory.json"); RPut (b "pre/o1/inventory.json.sha512");
+     RDelete (b "pre/o1/v2/content/b.txt"); RDelete (b "pre/o1/v2/inventory.json");
+     RDelete (b "pre/o1/v2/inventory.json.sha512")].
+Proof. exact sidecar_fault_sample. Qed.
+Print Assumptions C16_sidecar_fault_sample.
+
+(** an upgrade has six mutating requests; each of them failed in turn gives an error and the
+    bucket of before; position 6 does not exist and the commit succeeds *)
+Example C16_upgrade_sweep_sample :
+  forallb (fun k => let out := write_new_version (Some k) (b "pre") wit_upgrade (init_st wit_bucket) in
+                    is_err (fst out) && bk_equiv (st_b (snd out)) wit_bucket && (k <? st_n (snd out)))
+          [0; 1; 2; 3; 4; 5] = true /\
+  fst (write_new_version (Some 6) (b "pre") wit_upgrade (init_st wit_bucket)) = Ok tt.
+Proof. destruct upgrade_sweep_sample as (_ & A & B & _). split; assumption. Qed.
+Print Assumptions C16_upgrade_sweep_sample.
+
+(** the zero-padded walk of a new object: root inventory last but one, its sidecar last *)
+Example C16_new_object_walk_sample :
+  st_log (snd (write_new_object None [] (b "o1") wit_walk (init_st []))) =
+    [RPut (b "o1/v01/inventory.json"); RPut (b "o1/v01/content/a.txt"); RPut (b "o1/v01/inventory.json.sha256");
+     RPut (b "o1/0=ocfl_object_1.0"); RPut (b "o1/inventory.json"); RPut (b "o1/inventory.json.sha256")].
+Proof. exact new_object_walk_sample. Qed.
+Print Assumptions C16_new_object_walk_sample.
